@@ -130,7 +130,9 @@ Definition tok_bytes (t : otok) : list Z :=
 Definition toks_bytes (l : list otok) : list Z := flat_map tok_bytes l.
 
 (* ---------- token-level semantics on the reference terminal ---------- *)
-(* by NAME: what each constant / format of sequences.go is meant to be.  That the bytes of a token
+(* by NAME: what each constant / format of sequences.go is meant to be.  Kitty keyboard push / pop
+   act on [t_kitty], the stack of the screen that is shown; ?1049 h / l ([set_mode 1049]) exchange it
+   with [t_kitty_other].  That the bytes of a token
    (translated from sequences.go) really have this meaning for a standards-following terminal is
    the bridge lemma family in proofs/ModesProofs.v and part of every differential case. *)
 Definition nonempty {A} (l : list A) : bool := match l with [] => false | _ => true end.
@@ -416,8 +418,12 @@ Definition do_render (x : sst) : sst :=
 Definition do_suspend (x : sst) : sst :=
   mkS (run_top suspend_script (x_m x)) (x_shape_next x) (x_shape_last x) (x_gnext x) (x_glast x) true (x_closed x).
 
-Definition do_resume (o : opts) (x : sst) : sst :=
-  mkS (run_calls resume_calls o (s_fl (x_m x)) (x_m x)) (x_shape_next x) (x_shape_last x) (x_gnext x) (x_glast x) false (x_closed x).
+(* Resume: the calls in source order.  The order is the translated one ([resume_calls]); the
+   reference terminal tells the orders apart (pushing the kitty flags before or after the switch
+   to the alternate screen lands on different stacks), see C04_resume_order_refuted. *)
+Definition do_resume_with (cs : list callname) (o : opts) (x : sst) : sst :=
+  mkS (run_calls cs o (s_fl (x_m x)) (x_m x)) (x_shape_next x) (x_shape_last x) (x_gnext x) (x_glast x) false (x_closed x).
+Definition do_resume (o : opts) (x : sst) : sst := do_resume_with resume_calls o x.
 
 (* Close: `if vx.closed { return }; vx.closed = true; ...` when the translator saw that guard *)
 Definition do_close (o : opts) (x : sst) : sst :=
@@ -497,7 +503,8 @@ Record c04case := mkCase {
   k_appid : list Z; k_ustyle : Z;                                   (* what the terminal reported: OSC 176, DECRQSS *)
   k_rows : Z; k_cols : Z;
   k_honours_inband : bool;                                          (* the terminal implements ?2048 (whether or not it reported) *)
-  k_kitty0 : list Z;                                                (* the terminal's kitty keyboard stack before start-up *)
+  k_kitty0 : list Z;                                                (* the terminal's kitty keyboard stack before start-up (main screen) *)
+  k_kalt0 : list Z;                                                 (* ... and the stack of its alternate screen *)
   k_ops : list op;
   k_obs : list (Z * list seg);                                      (* outcome and bytes of start-up and of each operation *)
   k_caps : list bool;                                               (* VerifCaps after New: sync unicode explicit kittykb sixels theme osc176 inband *)
@@ -505,7 +512,7 @@ Record c04case := mkCase {
 
 Definition case_data (c : c04case) : data := mkData (kitty_flags (k_mask c) (k_report c)) (k_appid c) (k_ustyle c).
 Definition case_t0 (c : c04case) : term :=
-  fresh_term [] (k_kitty0 c) (k_ustyle c) (k_appid c) (k_honours_inband c).
+  fresh_term [] (k_kitty0 c) (k_kalt0 c) (k_ustyle c) (k_appid c) (k_honours_inband c).
 
 Definition flags_list (fl : flags) : list bool :=
   [f_sync fl; f_unicode fl; f_explicit fl; f_kittykb fl; f_sixels fl; f_theme fl; f_osc176 fl; f_inband fl].
@@ -562,11 +569,11 @@ Definition c04_session_known (l : list c04case) : list Z :=
 (* ---------- second stream: New fails after start-up (reportWinsize returns an error) ---------- *)
 Record c04fail := mkFail {
   q_opts : opts; q_det : flags; q_mask : Z; q_report : bool; q_appid : list Z; q_ustyle : Z;
-  q_honours_inband : bool; q_kitty0 : list Z;
+  q_honours_inband : bool; q_kitty0 : list Z; q_kalt0 : list Z;
   q_obs : list seg }.                       (* everything written before New returned the error *)
 
 Definition fail_data (c : c04fail) : data := mkData (kitty_flags (q_mask c) (q_report c)) (q_appid c) (q_ustyle c).
-Definition fail_t0 (c : c04fail) : term := fresh_term [] (q_kitty0 c) (q_ustyle c) (q_appid c) (q_honours_inband c).
+Definition fail_t0 (c : c04fail) : term := fresh_term [] (q_kitty0 c) (q_kalt0 c) (q_ustyle c) (q_appid c) (q_honours_inband c).
 
 Definition fail_agrees (c : c04fail) : bool :=
   let out := s_out (failed_new (q_opts c) (q_det c) (fail_data c)) in
